@@ -48,6 +48,11 @@ def gen_case(ctx, rng, big=False):
     ops = []
     for _ in range(rng.randint(1, ctx.scale(8, 20))):
         k = rng.choice(["set", "set", "get", "predict", "score", "failing_sweep"])
+        if not big and rng.random() < 0.08:
+            # the sensors are re-ranked in between without touching the basis (fit on the fitted basis, or fewer modes of it): the fresh
+            # model the history is compared with goes through the same re-rankings – only the setter calls are replaced by its constructor
+            ops.append(("rerank", rng.choice(["prefit", "modes"]), rng.randint(1, 3)))
+            continue
         if k == "set":
             v = rng.choice(H.INVALID_COUNTS + [nf + 1, nf + 7]) if rng.random() < 0.3 else rng.randint(1, nf)
             if isinstance(v, int) and v > 0 and rng.random() < (0.6 if big else 0.25):
@@ -89,6 +94,18 @@ def build(case, n_sensors):
     from pysensors.reconstruction import SSPOR
     return SSPOR(basis=models.make_basis(case["basis"], case["n_modes"]), optimizer=H.make_optimizer(case["opt"]),
                  n_sensors=n_sensors)
+
+
+def _rerank_modes(model, op):
+    """fewer modes of the fitted basis: current width minus 0..2, at least 1 (decided by the op alone and the model's width)"""
+    return max(1, int(model.basis_matrix_.shape[1]) - (op[2] - 1))
+
+
+def _rerank(model, case, op, X):
+    if op[1] == "prefit":
+        model.fit(X.copy(), quiet=True, prefit_basis=True, seed=case["seed"], **_kws(case))
+    else:
+        model.update_n_basis_modes(_rerank_modes(model, op), quiet=True)
 
 
 def snapshot(model, X):
@@ -141,6 +158,7 @@ def check_case(ctx, case, idx):
     rank0 = np.array(model.get_all_sensors()).tolist()
     final = model.n_sensors
     changed = False
+    reranks = []
     hist_ops = [("fit", 0, False, case["seed"])]
     for op in case["ops"]:
         if op[0] == "set":
@@ -155,6 +173,17 @@ def check_case(ctx, case, idx):
                                   {"signature": "rejected-setter-mutates", "case": desc, "index": idx})
                     return
             hist_ops.append(op)
+        elif op[0] == "rerank":
+            try:
+                _rerank(model, case, op, X)
+            except Exception:
+                ctx.count("rerank_rejected")
+                return
+            ctx.count("rerank:" + op[1])
+            reranks.append(op)
+            rank0 = np.array(model.get_all_sensors()).tolist()
+            hist_ops.append(("fit", 0, True, case["seed"]) if op[1] == "prefit" else ("upd", _rerank_modes(model, op), None))
+            continue
         elif op[0] == "get":
             model.get_selected_sensors(); model.get_all_sensors(); _ = model.selected_sensors
         elif op[0] == "failing_sweep":
@@ -207,7 +236,41 @@ def check_case(ctx, case, idx):
                                   f"setter history ended with that count",
                       {"signature": "setter-history-count-rejected-by-fresh-model", "case": desc, "index": idx})
         return
+    try:
+        for op in reranks:
+            _rerank(fresh, case, op, X)
+    except Exception as e:
+        ctx.violation("concrete", f"a fresh model built with n_sensors={final} rejects a re-ranking the history's model accepted ({type(e).__name__}: {e})",
+                      {"signature": "setter-history-rerank-rejected-by-fresh-model", "case": desc, "index": idx})
+        return
     ref = snapshot(fresh, X)
+    # predictions are those of the model's OWN current ranking and basis matrix (least squares on the selected rows) – whatever was
+    # predicted, scored or re-ranked before
+    try:
+        Bm = np.array(model.basis_matrix_, dtype=float)
+        sel_ = got["sel"]
+        if isinstance(got["pred"], np.ndarray) and len(sel_) and np.all(np.isfinite(Bm)):
+            Bs = Bm[sel_, :]
+            cond = np.linalg.cond(Bs)
+            if cond < 1e6:
+                want_pred = (Bm @ np.linalg.lstsq(Bs, X[:, sel_].T.astype(float), rcond=None)[0]).T
+                tol = 1e-7 * (1 + float(np.max(np.abs(want_pred)))) * cond
+                if got["pred"].shape != want_pred.shape or not np.allclose(got["pred"], want_pred, atol=tol, rtol=0):
+                    ctx.violation("concrete", f"after the history, predict with the {len(sel_)} selected sensors is not the least-squares reconstruction "
+                                              f"from the model's own basis matrix and selection (max deviation "
+                                              f"{float(np.max(np.abs(got['pred'] - want_pred))) if got['pred'].shape == want_pred.shape else 'shape'})",
+                                  {"signature": "setter-history-predictions-not-of-current-selection", "case": desc, "index": idx})
+                    return
+    except np.linalg.LinAlgError:
+        pass
+    if any(op[1] == "modes" for op in reranks):
+        # update_n_basis_modes re-shuffles the unranked tail with a fresh random seed: only the ranked leading part is comparable
+        lead = min(np.array(model.basis_matrix_).shape)
+        for d_ in (got, ref):
+            d_["rank"] = d_["rank"][:lead]
+            d_["sel"] = d_["sel"][:lead]
+            if d_["ns"] > lead:
+                d_["pred"] = d_["score"] = "tail-dependent"
     diffs = [k for k in ("sel", "ns", "rank", "pred", "score") if not same(got[k], ref[k])]
     if diffs:
         ctx.violation("concrete",
@@ -248,7 +311,9 @@ def _run(ctx: C.Ctx):
     machine_compare(ctx, hs, "C14")
 
 
-def machine_compare(ctx, hs, tag):
+def machine_compare(ctx, hs, tag, search=None):
+    """`search(idx, h, i)`: when the real object and the machine part ways at call `i`, the owning check looks for a concrete
+    failing input on the history cut right after that call (True = found and reported)"""
     outs = []
     reqs = []
     for idx, h in hs:
@@ -261,6 +326,14 @@ def machine_compare(ctx, hs, tag):
         d = H.compare(out, H.parse_model(rp))
         if d is not None:
             i, key, msg = d
+            if search is not None:
+                n0 = len([v for v in ctx.violations if v.kind == "concrete"])
+                try:
+                    search(idx, h, i)
+                except Exception:
+                    pass
+                if len([v for v in ctx.violations if v.kind == "concrete"]) > n0:
+                    continue
             ctx.violation("no-failing-input-found", f"SSPOR vs Lean machine: call {i} ({h.ops[i] if i < len(h.ops) else 'ctor'}) {key}: {msg}",
                           {"signature": f"sspor-machine:{key}", "history": h.describe(), "call": i, "index": idx},
                           broken=f"correspondence Model/Sspor.lean ↔ SSPOR ({key}); theorems of Props/{tag}.lean are about the model")
